@@ -116,6 +116,19 @@ func TestC12BuffersShareThePools(t *testing.T) {
 				}
 				lmodel[i] = lmodel[i][k:]
 			},
+			"mixedRelease": func(t *rapid.T) {
+				// what the framework does when a connection ends (for a broken one: once when the
+				// failure is noticed and again when the connection is closed); the buffer is empty
+				// afterwards, owns nothing any more and may be used again
+				i := rapid.IntRange(0, nb-1).Draw(t, "buf")
+				twice := rapid.Bool().Draw(t, "twice")
+				hist = append(hist, fmt.Sprintf("mixed%d.Release(twice=%v)", i, twice))
+				mixed[i].Release()
+				if twice {
+					mixed[i].Release()
+				}
+				mmodel[i] = nil
+			},
 			"mixedWrite": func(t *rapid.T) {
 				i := rapid.IntRange(0, nb-1).Draw(t, "buf")
 				d := gen.Next(rapid.SampledFrom(sizes).Draw(t, "n"))
